@@ -6,7 +6,7 @@ from smartquery.ast_ops import Op
 from smartquery.functions import FUNCTIONS
 from smartquery.ply import lex, yacc
 from smartquery.scoped_dict import ScopedDict
-from smartquery.vm_state import VMState
+from smartquery.vm_state import VMState, current_state
 
 
 class SqParser:
@@ -75,10 +75,14 @@ class SqParser:
         if ast is not None:
             state = VMState(names=scoped_names, max_ops_evaluated=max_ops_evaluated)
 
-            if ast_names is not None:
-                for k, v in ast_names.items():
-                    scoped_names[k] = v.eval(state)
+            token = current_state.set(state)
+            try:
+                if ast_names is not None:
+                    for k, v in ast_names.items():
+                        scoped_names[k] = v.eval(state)
 
-            return ast.eval(state)
+                return ast.eval(state)
+            finally:
+                current_state.reset(token)
         else:
             return None
